@@ -181,19 +181,27 @@ where
                 match diff {
                     DiffElement::Unequal(_, _) => {
                         let (node, _dep) = nodes.get(key).unwrap();
-                        node.make_stale();
+                        // The per-key node is only kept alive by whatever the user's function
+                        // built on top of it. If that function ignores its input, the node is
+                        // already gone and there is nobody to tell.
+                        if let Some(node) = node.upgrade() {
+                            node.make_stale();
+                        }
                         nodes
                     }
                     DiffElement::Left(_) => {
                         let (node, dep) = nodes.remove(key).unwrap();
                         // running remove_dependency will cause node's weak ref to die.
                         // so we upgrade it first.
-                        let node = node.upgrade().unwrap();
+                        // (It may already be dead if the user's function ignored its input.)
+                        let node = node.upgrade();
                         result_weak.remove_dependency(dep);
                         let mut acc = acc.borrow_mut();
                         acc.remove(key);
                         // Invalidate does have to happen after remove_dependency.
-                        node.invalidate();
+                        if let Some(node) = node {
+                            node.invalidate();
+                        }
                         nodes
                     }
                     DiffElement::Right(_) => {
